@@ -44,7 +44,7 @@ type c10Case struct {
 }
 
 var c10Hostile = []string{".", "..", "a/../b", "../x", "../bk1/x", "../bk1/a", "../../metadata/bk0/x", "../../metadata/bk1/a-x", "../../buckets2/x", "../../root2/x", "../bk0", "../bk1",
-	"a//b", "a/./b", "d/./x", "d/../a", "./a", "a/.", "a/..", "d/..", "d/x/..", ".hidden", "..hidden", "...", "a\\b", "..\\x", "..\\bk1\\a", "%2e%2e%2f", "%2e%2e/bk1/a", "d", "d/", "d/x/y", "a/b",
+	"a//b", "a/./b", "d/./x", "d/../a", "./a", "a/.", "a/..", "d/..", "d/x/..", ".hidden", "..hidden", "...", "a\\b", "..\\x", "..\\bk1\\a", "%2e%2e%2f", "%2e%2e/bk1/a", "d", "d/", "d/x/y", "a/b", "a/b/c/d", "d/x/y/z/w",
 	"_meta", "bucket/bk0", "metadata", "buckets", "metadata/bk0/a", ".modtime-resolution", "A", "é", "é", "a b", "a+b", "a%2Fb", "a_b", "d_x", "d\\x",
 	strings.Repeat("s", 255), strings.Repeat("s", 256), strings.Repeat("l", 200) + "/" + strings.Repeat("m", 200), "\x00", "a\x00b", "nul\x00", "a\nb", " ", " a", "a ", "*", "?", "a?b", "a#b", "..a/..b", "a/b/../../../x"}
 
